@@ -13,3 +13,4 @@ from . import lineage  # noqa
 from . import compute  # noqa
 from . import overlap  # noqa
 from . import multirun  # noqa
+from . import postoffice  # noqa
